@@ -11,7 +11,7 @@ COQ = os.path.join(VERIF, 'coq')
 WORK = os.path.join(VERIF, 'work')
 REPLAYS = os.path.join(VERIF, 'replays')
 EVIDENCE = os.path.join(VERIF, 'evidence')
-HARNESS = os.path.join(VERIF, 'harness')
+HARNESS = os.environ.get('VERIF_HARNESS', os.path.join(VERIF, 'harness'))
 OCAML = os.path.join(VERIF, 'ocaml')
 NPROC = os.cpu_count() or 4
 
